@@ -31,7 +31,14 @@ def jobs(workdir, repo=REPO):
         overlay.Rule("prelude", r'(?s)\A.*^#include [<"][^\n]*\n(?P<at>)', CUT),
         overlay.Rule("cut:tail", r"^        data2 = hashU\.hash\[1\];\n(?P<at>)", "        VF_CUT_TAIL(data1, data2);\n"),
     ]
-    out, fired = overlay.apply(text, rules)
+    uncut = False
+    try:
+        out, fired = overlay.apply(text, rules)
+    except overlay.OverlayError:
+        # the tail was restructured: the cut-point anchor is gone.  Fall back to the UNCUT equivalence of the tail: a wrong tail
+        # is refuted quickly (counterexample), a correct restructured one stays undecided (the multipliers, see CUT above)
+        out, fired = overlay.apply(text, rules[:1])
+        uncut = True
     os.makedirs(workdir, exist_ok=True)
     path = os.path.join(workdir, "murmur3_x64_128_internal.c")
     with open(path, "w") as f:
@@ -46,6 +53,12 @@ def jobs(workdir, repo=REPO):
         js.append(Job("murmur/block/n=%d" % nb, [h, path], entry="vf_h_block", defines=["VF_NB=%d" % nb],
                       meta=dict(meta, bounded="loop count %d" % nb), **eq))
     js.append(Job("murmur/block/bounds", [h, path], entry="vf_h_block", defines=["VF_NB=3", "VF_SAFETY"], meta=meta, **safe))
+    if uncut:
+        js.append(Job("murmur/tail/whole-uncut", [h, path], entry="vf_h_tail", defines=["VF_POST_ONLY"], includes=inc, unwind=20, timeout=400,
+                      solvers=["z3", "cvc5", "cadical"], checks=["--no-standard-checks"],
+                      meta=dict(meta, note="cut-point anchor not found: uncut equivalence (refutation attempt)")))
+        js.append(Job("murmur/tail/bounds", [h, path], entry="vf_h_tail", defines=["VF_SAFETY"], meta=meta, **safe))
+        return js
     # the cut assertion (byte packing, no multiplier) on SAT; what follows the cut on SMT
     js.append(Job("murmur/tail/cut", [h, path], entry="vf_h_tail", defines=["VF_CUT_ONLY"], includes=inc, unwind=20, timeout=900,
                   solvers=["minisat", "cadical"], checks=["--no-standard-checks"], meta=meta))
